@@ -170,6 +170,14 @@ def judge(ctx, c, case):
         if c.get('shape'):
             ctx.count("tables_with_other_record_shapes")
         ftypes = T.mk_field_types(c.get('centered'), c.get('bounded'))
+        if len(c['recs']) % 3 == 1:
+            # another table of the application has an enum column over the SAME values whose names are different (the
+            # state of an order, the state of a delivery); it was printed first
+            other = T.PPEnumFieldType({k: ("other %s" % k, "name_good") if isinstance(v, tuple) else "other %s" % k
+                                       for k, v in T.ENUM_DEF.items()})
+            T.render(PPTable([(k,) for k in T.ENUM_DEF] + [(None,), (77,)], fields=['st'],
+                             fmt="st,st/name,st/val,st/full", fields_types={'st': other}))
+            ctx.count("tables_printed_after_another_enum_type_over_the_same_values")
         if c.get('rec_fmt_first') and c['recs'] and not c.get('shape'):
             # the same field type objects were used by a one-line record formatter before, and the caller
             # built its output line from the returned column texts, in place
